@@ -476,6 +476,63 @@ def h_fftfreq(I, args, kw, st, n):
     return Arr([(v, cnt)], mk_fn("fftfreq", [X.var(v), cnt, d], "real"))
 
 
+def h_pad(I, args, kw, st, n):
+    A = _arr(args[0], st) if isinstance(args[0], LocalArr) else as_arr(args[0])
+    if A is None or is_opaque(A) or A.ndim != 1: return Opaque("np.pad of a non 1-D array")
+    w = args[1] if len(args) > 1 else kw.get("pad_width")
+    if isinstance(w, tuple) and len(w) == 2: pl, pr = to_x(w[0]), to_x(w[1])
+    else: pl = pr = to_x(w)
+    if pl is None or pr is None: return Opaque("np.pad widths")
+    mode = kw.get("mode", "constant")
+    (av, ac), = A.axes
+    j = fresh("j")
+    src = X.var(j) - pl
+    if mode == "edge":
+        idx = lm.canon_minmax("min", [lm.canon_minmax("max", [src, X.const(0)]), ac - 1])
+        return Arr([(j, pl + ac + pr)], subst_val(A.body, {av: idx}))
+    if mode == "constant":
+        c1 = lm.scal_compare(ast.Lt(), src, X.const(0), "left pad")
+        c2 = lm.scal_compare(ast.Lt(), src - ac, X.const(0), "inside")
+        inner = subst_val(A.body, {av: src})
+        body = pv_apply(lambda a_, b_, x_: (x_ if (a_ is False and b_ is True) else X.const(0)) if isinstance(a_, bool) and isinstance(b_, bool) else Opaque("pad test"), c1, c2, inner)
+        return Arr([(j, pl + ac + pr)], body)
+    return Opaque(f"np.pad mode {mode!r}")
+
+
+def h_correlate(I, args, kw, st, n):
+    A, Vv = as_arr(args[0]), as_arr(args[1])
+    mode = kw.get("mode", args[2] if len(args) > 2 else "valid")
+    if A is None or Vv is None or A.ndim != 1 or Vv.ndim != 1 or mode != "valid": return Opaque("np.correlate")
+    (av, ac), = A.axes; (vv, vc), = Vv.axes
+    m = fresh("m"); k = fresh("k")
+    prod = lift2("*", subst_val(A.body, {av: X.var(m) + X.var(k)}), subst_val(Vv.body, {vv: X.var(k)}))
+    return Arr([(m, ac - vc + 1)], sum_over(k, vc, prod))
+
+
+def h_sliding(I, args, kw, st, n):
+    A = as_arr(args[0]); W = to_x(args[1] if len(args) > 1 else kw.get("window_shape"))
+    if A is None or A.ndim != 1 or W is None: return Opaque("sliding_window_view")
+    (av, ac), = A.axes
+    m = fresh("m"); k = fresh("k")
+    return Arr([(m, ac - W + 1), (k, W)], subst_val(A.body, {av: X.var(m) + X.var(k)}))
+
+
+def h_einsum(I, args, kw, st, n):
+    if not args or args[0] != "ij,ij->i": return Opaque("einsum signature")
+    A, B = as_arr(args[1]), as_arr(args[2])
+    if A is None or B is None or A.ndim != 2 or B.ndim != 2: return Opaque("einsum operands")
+    (ai, ac), (aj, ad) = A.axes; (bi, bc), (bj, bd) = B.axes
+    if not ad.eq(bd): return Mismatch(f"einsum contraction lengths differ: {ad!r} vs {bd!r}")
+    prod = lift2("*", A.body, subst_val(B.body, {bi: X.var(ai), bj: X.var(aj)}))
+    return Arr([(ai, ac)], sum_over(aj, ad, prod))
+
+
+def h_repeat(I, args, kw, st, n):
+    v, cnt = args[0], to_x(args[1])
+    if to_x(v) is None or cnt is None: return Opaque("np.repeat")
+    return Arr([(fresh("i"), cnt)], to_x(v))
+
+
 def h_opaque(why):
     def h(I, args, kw, st, n): return Opaque(why)
     return h
@@ -619,6 +676,11 @@ _reg("numpy.where", h_where)
 _reg("numpy.select", h_select)
 _reg("numpy.clip", h_clip)
 _reg("numpy.power", h_pow)
+_reg("numpy.pad", h_pad)
+_reg("numpy.correlate", h_correlate)
+_reg("numpy.lib.stride_tricks.sliding_window_view", h_sliding)
+_reg("numpy.einsum", h_einsum)
+_reg("numpy.repeat", h_repeat)
 _reg("numpy.fft.fftfreq", h_fftfreq)
 _reg("numpy.searchsorted", h_searchsorted)
 _reg("numpy.stack", h_stack)
@@ -711,6 +773,10 @@ def call_method(I, o, name, args, kw, st, n):
         return Opaque(f"array method {name}")
     if isinstance(o, X):
         if name in ("item", "copy"): return o
+        if name == "astype":
+            if args and isinstance(args[0], Lib) and args[0].name.split(".")[-1] in ("int", "int64", "int32", "intp"):
+                return o if lm.is_integer(o) else mk_fn("trunc", [o])
+            return o
         if name in ("conj", "conjugate"): return o.conj()
         return Opaque(f"scalar method {name}")
     if isinstance(o, ListVal):
